@@ -695,6 +695,17 @@ def r_resolution_map(chk, P, tier):
                     got = fold_dt(kw, off)
                     expect("date-time fields + %s timestamp" % ("consistent" if consistent else "contradicting"), ((y, m, d, h, mi, sec), off, delta), got,
                            got == w_ok if consistent else got == ("Err", "Impossible"))
+    # the offset field is seconds east of UTC
+    for off in (-86399, -3600, -1, 0, 1, 3600, 19800, 86399, 86400, -86400, 2**31 - 1):
+        try:
+            v = show(fo.call(F + "to_fixed_offset", [parsed({"offset": off})]))
+        except Unknown as e:
+            v = ("unknown", str(e))
+        got = ("Ok", v[1][1]) if isinstance(v, tuple) and v[0] == "Result::Ok" else (("Err", _err_kind(v)) if isinstance(v, tuple) and v[0] == "Result::Err" else v)
+        w = ("Ok", off) if -86400 < off < 86400 else ("Err", "OutOfRange")
+        expect("to_fixed_offset", off, got, got == w)
+    got = fold("to_fixed_offset", {})
+    expect("to_fixed_offset without offset", {}, got, got == ("Err", "NotEnough"))
     for _ in range(n_ok[0]):
         chk.ok("value")
     for cls, (a, got) in sorted(bad.items()):
